@@ -41,7 +41,7 @@ impl Property for P {
     fn cases(tier: Tier) -> u64 {
         match tier {
             Tier::Quick => 30_000,
-            Tier::Thorough => 200_000,
+            Tier::Thorough => 1_000_000,
         }
     }
     fn strategy(_tier: Tier) -> BoxedStrategy<Case> {
